@@ -612,13 +612,9 @@ def run(ctx, col: Collector):
         add = db.methods.get('add')
         if add is None:
             raise AnchorMissing('Database.add')
+        # Database.add specialised per model class (isinstance tests on the argument decided, dispatch tables and helper methods read in place): which add_* it reaches
         dispatched: Dict[str, str] = {}
-        for n in ast.walk(add.node):
-            if isinstance(n, ast.If) and isinstance(n.test, ast.Call) and norm(n.test.func) == 'isinstance':
-                cls = norm(n.test.args[1])
-                for c in ast.walk(ast.Module(body=n.body, type_ignores=[])):
-                    if isinstance(c, ast.Call) and isinstance(c.func, ast.Attribute) and c.func.attr.startswith('add_'):
-                        dispatched[cls] = c.func.attr
+        undecided: Dict[str, str] = {}
         model_of: Dict[str, str] = {}
         for cname in sorted(produced):
             b = bps[cname].methods['build']
@@ -626,19 +622,44 @@ def run(ctx, col: Collector):
                 if isinstance(n, ast.Return) and n.value is not None:
                     v = n.value
                     if isinstance(v, ast.Name):
-                        for s in walk_no_nested(b.node):
-                            if isinstance(s, ast.Assign) and norm(s.targets[0]) == v.id and isinstance(s.value, ast.Call):
-                                v = s.value
+                        for s_ in walk_no_nested(b.node):
+                            if isinstance(s_, ast.Assign) and norm(s_.targets[0]) == v.id and isinstance(s_.value, ast.Call):
+                                v = s_.value
                     if isinstance(v, ast.Call) and isinstance(v.func, ast.Name):
                         model_of[cname] = v.func.id
-        add_names = {x.id for x in ast.walk(add.node) if isinstance(x, ast.Name)}
+        objp = [a.arg for a in add.node.args.args][1]
+        keep_add = {n for n in db.methods if n.startswith('add_')}
+        for m in sorted(set(model_of.values())):
+            mci = next((c for c in idx.classes.values() if c.name == m and c.module.startswith('pydbml._classes')), None)
+            if mci is None:
+                undecided[m] = f'class {m} not found'
+                continue
+            spec = inlined_info(idx, add, 3, keep=keep_add, types={objp: mci.id})
+            alias: Dict[str, str] = {}
+            for n in ast.walk(spec.node):
+                if isinstance(n, ast.Assign) and len(n.targets) == 1 and isinstance(n.targets[0], ast.Name) and isinstance(n.value, ast.Attribute) \
+                        and norm(n.value.value) == 'self' and n.value.attr.startswith('add_'):
+                    alias[n.targets[0].id] = n.value.attr
+            reached = []
+            for c in ast.walk(spec.node):
+                if isinstance(c, ast.Call) and c.args and norm(c.args[0]) == objp:
+                    if isinstance(c.func, ast.Attribute) and norm(c.func.value) == 'self' and c.func.attr.startswith('add_'):
+                        reached.append(c.func.attr)
+                    elif isinstance(c.func, ast.Name) and c.func.id in alias:
+                        reached.append(alias[c.func.id])
+            left = any(isinstance(c, ast.Call) and norm(c.func) == 'isinstance' and c.args and norm(c.args[0]) == objp for c in ast.walk(spec.node))
+            if len(set(reached)) == 1 and not left:
+                dispatched[m] = reached[0]
+            elif left or reached:
+                undecided[m] = f'dispatch not decided (reaches {sorted(set(reached))}{", isinstance tests left" if left else ""})'
         for cname, m in sorted(model_of.items()):
             if m in dispatched:
                 col.ok('C01-wiring', f'Database.add:{m}', f'{m} -> {dispatched.get(m)}', node=add.node, file=add.file)
-            elif m in add_names:
-                col.unk('C01-wiring', f'Database.add:{m}', f'Database.add mentions {m} but not in a recognised `isinstance(obj, {m}) -> add_*` form', node=add.node, file=add.file)
+            elif m in undecided:
+                col.unk('C01-wiring', f'Database.add:{m}', f'Database.add for a {m}: {undecided[m]}', node=add.node, file=add.file)
             else:
-                col.bad('C01-wiring', f'Database.add:{m}', f'Database.add never mentions {m} (built from {cname}): parsed elements of that kind cannot be added', node=add.node, file=add.file)
+                col.bad('C01-wiring', f'Database.add:{m}', f'Database.add specialised to {m} (built from {cname}) reaches no add_* method: parsed elements of that kind cannot be '
+                        f'added', node=add.node, file=add.file)
         # the add_* methods append (order kept)
         bad_order = []
         ctl = ast.parse('def f(self, x):\n    self.tables.insert(0, x)\n    self.refs = sorted(self.refs)\n')
